@@ -624,7 +624,7 @@ static int parse_binding_parameter(int vp, int nbth, char * binding) {
                     /* core range */
                     position++;
                     next_arg = (int) strtol(position, &position, 10);
-                    for(t=arg+1; t<=next_arg; t++)
+                    for(t=arg+1; (t<=next_arg) && (cmp < nbth); t++)  /* core_tab only holds nbth entries */
                         if( (t < nb_real_cores) && (t > -1) ) {
                             core_tab[cmp]=t;
                             cmp++;
